@@ -5,7 +5,8 @@ def run(chk):
     N.run_driver(chk, N.model_sequences(chk, 6000 if thorough else 600), "tlc-state-cover")
     N.run_driver(chk, N.random_behaviours(chk.rng, 4000 if thorough else 300, "c03"), "random-manifest-arrivals")
     N.run_driver(chk, N.random_behaviours(chk.rng, 2000 if thorough else 150, "c05"), "random-with-ticks")
-    import livetests
+    import livetests, system
+    system.run(chk, 600 if thorough else 80)   # System.tla schedules on 2-3 real nodes: arbitrary message order, loss, late delivery
     if thorough or True:
         livetests.run(chk)   # the repository's own scenario tests, traced and validated against the same contract
     chk.assumptions += N.ASSUME
